@@ -279,6 +279,40 @@ class CFG:
                 todo.append(b)
         return None
 
+    def path_avoiding_consistent(self, target, skip_edges=(), atom_key=None, start=None, limit=200000):
+        """Like path_avoiding, but a path must take the same side at every test node that `atom_key`
+        maps to the same key (two tests of one unchanged condition cannot disagree).  atom_key(test node)
+        returns a hashable key or None (uncorrelated).  Falls back to the plain search beyond `limit`
+        states (an over-approximation of paths, still sound for must-pass queries)."""
+        skip_edges = set(skip_edges)
+        start = start or self.entry
+        keys = {n.id: (atom_key(n) if atom_key else None) for n in self.nodes if n.kind == 'test'}
+        seen = set()
+        todo = [(start, frozenset())]
+        while todo:
+            n, asg = todo.pop()
+            if (n.id, asg) in seen:
+                continue
+            seen.add((n.id, asg))
+            if len(seen) > limit:
+                return self.path_avoiding(target, skip_edges=skip_edges, start=start)
+            if n is target:
+                return [n]
+            for (b, label) in n.succ:
+                if (n.id, label) in skip_edges:
+                    continue
+                nasg = asg
+                k = keys.get(n.id)
+                if k is not None and label in ('true', 'false'):
+                    val = label == 'true'
+                    d = dict(asg)
+                    if k in d and d[k] != val:
+                        continue
+                    if k not in d:
+                        nasg = asg | {(k, val)}
+                todo.append((b, nasg))
+        return None
+
     def dominates(self, a, b):
         return a is b or self.path_avoiding(b, skip_nodes=[a]) is None
 
